@@ -34,7 +34,7 @@ def main():
                            capture_output=True, text=True).stdout.strip().splitlines()
     man = dict(
         version=1,
-        setup_cmd="cd /verif/harness && cp -n /repo/Cargo.lock Cargo.lock; cargo build --release --offline --bins && cd /verif && ./check selftest",
+        setup_cmd="cd /verif/harness && cp -n /repo/Cargo.lock Cargo.lock; cargo build --release --offline --bins",
         hooks=dict(
             guard="--cfg probminhash_verif (rustc cfg flag, set in /verif/harness/.cargo/config.toml)",
             enable="cd /verif/harness && cargo build --release --offline   # rustflags = [\"--cfg\", \"probminhash_verif\"] come from harness/.cargo/config.toml; the harness depends on /repo by path",
@@ -50,7 +50,7 @@ def main():
         ],
         checks=[],
         not_applicable=[],
-        notes="driver: ./check <ID> [--tier quick|thorough] [--replay path] [--selftest]; specs in spec/, harness in harness/, "
+        notes="driver: ./check <ID> [--tier quick|thorough] [--replay path] [--selftest]; ./check selftest runs the anti-vacuity self-tests of all checks (corrupted traces and deviation constants must be rejected); specs in spec/, harness in harness/, "
               "known findings in known_findings.json; every check rebuilds the harness against /repo's working tree first.",
     )
     for pid in ALL:
